@@ -613,3 +613,61 @@ func refIndexStr(s, sub string) int {
 	}
 	return -1
 }
+
+// refFloatSyntax: does s have the syntax of a decimal floating point number
+// as strconv documents it - optional sign, digits with an optional point (at
+// least one digit), optional exponent e/E with optional sign and at least one
+// digit; underscores only between digits are NOT accepted here without a base
+// prefix; or (case-insensitively) inf, infinity, nan with optional sign (not
+// for nan). Hexadecimal forms are outside this reference.
+func refFloatSyntax(s string) (ok, hexish bool) {
+	i := 0
+	if i < len(s) && (s[i] == '+' || s[i] == '-') {
+		i++
+	}
+	rest := refLowerASCII(s[i:])
+	if rest == "inf" || rest == "infinity" {
+		return true, false
+	}
+	if refLowerASCII(s) == "nan" {
+		return true, false
+	}
+	if len(rest) >= 2 && rest[0] == '0' && rest[1] == 'x' {
+		return false, true
+	}
+	for k := 0; k < len(s); k++ {
+		if s[k] == '_' {
+			return false, true // underscore rules are outside this reference
+		}
+	}
+	digits := 0
+	for i < len(s) && s[i] >= '0' && s[i] <= '9' {
+		i++
+		digits++
+	}
+	if i < len(s) && s[i] == '.' {
+		i++
+		for i < len(s) && s[i] >= '0' && s[i] <= '9' {
+			i++
+			digits++
+		}
+	}
+	if digits == 0 {
+		return false, false
+	}
+	if i < len(s) && (s[i] == 'e' || s[i] == 'E') {
+		i++
+		if i < len(s) && (s[i] == '+' || s[i] == '-') {
+			i++
+		}
+		ed := 0
+		for i < len(s) && s[i] >= '0' && s[i] <= '9' {
+			i++
+			ed++
+		}
+		if ed == 0 {
+			return false, false
+		}
+	}
+	return i == len(s), false
+}
